@@ -10,10 +10,14 @@
 package core
 
 import (
+	"bytes"
 	"fmt"
 	"os"
+	"runtime"
 	"runtime/debug"
 	"sort"
+	"strconv"
+	"strings"
 	"sync"
 	"sync/atomic"
 	"time"
@@ -111,6 +115,9 @@ type Task struct {
 	loadedNoLock bool // did an atomic load in this operation and has not taken a lock since
 	inRead       bool // is between reads of a caller-supplied reader
 	spawned      bool // started by the library (go statement), not by the plan
+	blockedAt    string // where (goroutine state and stack) it was found blocked outside the model
+	outside      bool // blocked on a primitive the simulator does not model (a channel): not schedulable until it comes back
+	goid         atomic.Int64 // written by the task's goroutine, read by the kernel: atomically, the hand-off is hidden from the race detector
 	condTicket   int  // sync.Cond.Wait: ticket on the notify list (0: none)
 
 	// task-owned, read by the kernel only after join
@@ -221,9 +228,18 @@ func Go(fn func()) {
 // receive, select): channels are not modelled, but an operation on one is a
 // synchronisation point of the code under test, hence a scheduling point.
 func ChanPoint() {
-	if t := Cur(); t != nil {
-		t.Yield(KYield, nil, "chan", 0)
+	t := Cur()
+	if t == nil {
+		return
 	}
+	if anyOutside.Load() != 0 {
+		// a task that was blocked on the channel and has just been released is not the
+		// baton holder: it finds itself by goroutine
+		if v, ok := byGoid.Load(curGoid()); ok {
+			t = v.(*Task)
+		}
+	}
+	t.Yield(KYield, nil, "chan", 0)
 }
 
 // WaitOutstanding blocks until the goroutines started outside a simulation are done.
@@ -351,6 +367,7 @@ type Kernel struct {
 	insideRL  int // tasks currently holding a read lock (for probes)
 	detParked int
 
+	tick  *time.Ticker
 	wgs   map[any]int        // modelled WaitGroup counters
 	conds map[any]*condState // modelled sync.Cond notify lists
 }
@@ -372,7 +389,7 @@ func (k *Kernel) cond(obj any) *condState {
 
 // NewKernel returns a kernel.
 func NewKernel() *Kernel {
-	return &Kernel{req: make(chan request)}
+	return &Kernel{req: make(chan request), tick: time.NewTicker(2 * time.Millisecond)}
 }
 
 // Probe bumps a named counter of the running simulation. Kernel goroutine only.
@@ -434,7 +451,7 @@ func (k *Kernel) lock(r request) *lockState {
 }
 
 func (k *Kernel) grantable(t *Task) bool {
-	if !t.hasPend || t.finished {
+	if !t.hasPend || t.finished || t.outside {
 		return false
 	}
 	r := t.pend
@@ -832,6 +849,235 @@ func (k *Kernel) chooseTask(rs []*Task) *Task {
 	}
 }
 
+// goroutineStates returns the scheduler state of every goroutine ("running",
+// "chan receive", "select", ...), by goroutine id, from the runtime's own dump.
+func goroutineStates() map[int64]string {
+	m, _ := goroutineDump()
+	return m
+}
+
+// goroutineDump returns states and the text of every goroutine's stack.
+func goroutineDump() (map[int64]string, map[int64]string) {
+	buf := make([]byte, 1<<16)
+	for {
+		n := runtime.Stack(buf, true)
+		if n < len(buf) {
+			buf = buf[:n]
+			break
+		}
+		buf = make([]byte, 2*len(buf))
+	}
+	out := map[int64]string{}
+	stacks := map[int64]string{}
+	for _, blk := range bytes.Split(buf, []byte("\n\n")) {
+		if !bytes.HasPrefix(blk, []byte("goroutine ")) {
+			continue
+		}
+		line := blk
+		if i := bytes.IndexByte(blk, '\n'); i >= 0 {
+			line = blk[:i]
+		}
+		rest := line[len("goroutine "):]
+		sp := bytes.IndexByte(rest, ' ')
+		lb, rb := bytes.IndexByte(rest, '['), bytes.LastIndexByte(rest, ']')
+		if sp < 0 || lb < 0 || rb < lb {
+			continue
+		}
+		id, err := strconv.ParseInt(string(rest[:sp]), 10, 64)
+		if err != nil {
+			continue
+		}
+		st := string(rest[lb+1 : rb])
+		if c := strings.IndexByte(st, ','); c >= 0 {
+			st = st[:c] // "chan receive, 2 minutes"
+		}
+		out[id] = st
+		if i := bytes.IndexByte(blk, '\n'); i >= 0 {
+			stacks[id] = string(blk[i+1:])
+		}
+	}
+	return out, stacks
+}
+
+// blockedOutside reports whether the goroutine is durably blocked on something
+// that is not the kernel's own hand-off, and returns its stack.
+func blockedOutside(gid int64) (bool, string) {
+	states, stacks := goroutineDump()
+	st := stacks[gid]
+	if !durablyBlocked(states[gid]) || strings.Contains(st, "verifsim/core.(*Task).call") {
+		return false, st
+	}
+	return true, states[gid] + "\n" + st
+}
+
+func curGoid() int64 {
+	var buf [64]byte
+	n := runtime.Stack(buf[:], false)
+	rest := buf[len("goroutine "):n]
+	sp := bytes.IndexByte(rest, ' ')
+	if sp < 0 {
+		return -1
+	}
+	id, _ := strconv.ParseInt(string(rest[:sp]), 10, 64)
+	return id
+}
+
+// durablyBlocked says whether a goroutine state means "waits for another
+// goroutine's action" (as opposed to running, in a system call, asleep).
+func durablyBlocked(state string) bool {
+	switch {
+	case strings.HasPrefix(state, "chan "), strings.HasPrefix(state, "select"), strings.HasPrefix(state, "semacquire"),
+		strings.HasPrefix(state, "sync."):
+		return true
+	}
+	return false
+}
+
+// byGoid maps goroutine ids to tasks (needed only for scheduling points reached
+// by a task that is not the baton holder: one that came back from outside).
+var byGoid sync.Map
+
+// anyOutside is non-zero while some task of the running simulation is blocked
+// outside the model; scheduling points then identify their task by goroutine.
+var anyOutside atomic.Int32
+
+// await waits for the next request of the task that was just resumed. Requests
+// of other tasks can only come from tasks that were blocked outside the model and
+// have reached a scheduling point again: they are noted. blocked=true: t itself
+// is durably blocked on something the simulator does not model.
+func (k *Kernel) await(t *Task) (r request, blocked bool) {
+	idle := 0
+	seen := ""
+	for {
+		select {
+		case r = <-k.req:
+			if r.t == t {
+				return r, false
+			}
+			k.back(r)
+		case <-k.tick.C:
+			idle++
+			if idle < 3 {
+				continue
+			}
+			is, where := blockedOutside(t.goid.Load())
+			if !is {
+				seen = ""
+				continue
+			}
+			if where != seen {
+				// blocked now; it counts only when the next look (a tick later) finds the very same stack
+				seen = where
+				continue
+			}
+			// make sure it is not merely about to hand us its request
+			select {
+			case r = <-k.req:
+				if r.t == t {
+					return r, false
+				}
+				k.back(r)
+				seen = ""
+				continue
+			default:
+			}
+			t.blockedAt = where
+			return request{}, true
+		}
+	}
+}
+
+func firstFrames(s string, n int) string {
+	lines := strings.Split(s, "\n")
+	if len(lines) > n {
+		lines = lines[:n]
+	}
+	return strings.Join(lines, " | ")
+}
+
+// back notes the request of a task that had been blocked outside the model.
+func (k *Kernel) back(r request) {
+	u := r.t
+	if u == nil || !u.outside {
+		k.fail("harness", fmt.Sprintf("request from task %d, which does not hold the baton", u.ID))
+		return
+	}
+	u.outside = false
+	k.probe("task_back_from_unmodelled_primitive")
+	switch r.kind {
+	case KFinish:
+		u.finished = true
+	case KPanic:
+		u.finished = true
+		<-u.fin
+		k.fail("panic", u.panicMsg)
+	default:
+		u.pend, u.hasPend = r, true
+	}
+}
+
+// settle waits until every task that is blocked outside the model is either
+// still durably blocked or has handed in its next request: only then is the set
+// of runnable tasks a fact and not a matter of timing.
+func (k *Kernel) settle() {
+	n := 0
+	for _, u := range k.tasks {
+		if u.outside {
+			n++
+		}
+	}
+	anyOutside.Store(int32(n))
+	if n == 0 {
+		return
+	}
+	for spins := 0; ; spins++ {
+		drained := false
+		for more := true; more; {
+			select {
+			case r := <-k.req:
+				k.back(r)
+				drained = true
+			default:
+				more = false
+			}
+		}
+		states, stacks := goroutineDump()
+		quiet := true
+		for _, u := range k.tasks {
+			if u.outside && !durablyBlocked(states[u.goid.Load()]) {
+				quiet = false
+			}
+			_ = stacks
+		}
+		if quiet && !drained {
+			// one more look at the request channel: a task parked there is "blocked" too
+			select {
+			case r := <-k.req:
+				k.back(r)
+				continue
+			default:
+			}
+			break
+		}
+		if spins > 200000 {
+			k.fail("harness", "tasks blocked outside the model do not settle")
+			break
+		}
+		time.Sleep(20 * time.Microsecond)
+	}
+	n = 0
+	for _, u := range k.tasks {
+		if u.outside {
+			n++
+		}
+	}
+	anyOutside.Store(int32(n))
+}
+
+// UserPanic marks panic values raised by code the harness supplied to the
+// library on purpose (a detector with a bug).
+type UserPanic interface{ VerifUserPanic() }
+
 // newTask creates a parked task whose first request (start) is pending.
 // Kernel goroutine only.
 func (k *Kernel) newTask(body func(t *Task)) *Task {
@@ -839,6 +1085,10 @@ func (k *Kernel) newTask(body func(t *Task)) *Task {
 	t.pend, t.hasPend = request{t: t, kind: KStart}, true
 	k.tasks = append(k.tasks, t)
 	go func() {
+		gid := curGoid()
+		t.goid.Store(gid)
+		byGoid.Store(gid, t)
+		defer byGoid.Delete(gid)
 		raceDisable()
 		<-t.resume
 		raceEnable()
@@ -846,6 +1096,9 @@ func (k *Kernel) newTask(body func(t *Task)) *Task {
 		defer func() {
 			if r := recover(); r != nil {
 				t.panicMsg = fmt.Sprintf("%v\n%s", r, debug.Stack())
+				if _, ok := r.(UserPanic); ok {
+					t.panicMsg = "user-supplied code panicked: " + t.panicMsg
+				}
 				kind = KPanic
 			}
 			raceDisable()
@@ -912,7 +1165,11 @@ func (k *Kernel) Run(spec *RunSpec) *Outcome {
 					if !t.spawned {
 						unfinished++
 					}
-					blocked = append(blocked, fmt.Sprintf("t%d:%s(%s)", t.ID, t.pend.kind, k.objName(t.pend)))
+					if t.outside {
+						blocked = append(blocked, fmt.Sprintf("t%d:blocked on a channel or another primitive the simulator does not model [%s]", t.ID, firstFrames(t.blockedAt, 6)))
+					} else {
+						blocked = append(blocked, fmt.Sprintf("t%d:%s(%s)", t.ID, t.pend.kind, k.objName(t.pend)))
+					}
 				}
 			}
 			// goroutines the library started itself may legitimately wait for ever (a
@@ -968,9 +1225,20 @@ func (k *Kernel) Run(spec *RunSpec) *Outcome {
 		cur.Store(t)
 		raceDisable()
 		t.resume <- rep
-		r := <-k.req
+		r, blocked := k.await(t)
 		raceEnable()
 		cur.Store(nil)
+		if blocked {
+			// The task blocks, for good, on something the simulator does not model (a
+			// channel operation): it is out of the game until another task's action lets
+			// it reach a scheduling point again.
+			t.outside = true
+			k.probe("task_blocked_on_unmodelled_primitive")
+			k.logEvent(t, KYield, "blocked-outside", 0)
+			k.settle()
+			continue
+		}
+		k.settle()
 		if r.t != t {
 			k.fail("harness", fmt.Sprintf("request from task %d while task %d holds the baton", r.t.ID, t.ID))
 			break
@@ -1005,6 +1273,7 @@ func (k *Kernel) Run(spec *RunSpec) *Outcome {
 		out.Tainted = true
 	}
 	out.Races = RaceErrors() - races0
+	anyOutside.Store(0)
 	return out
 }
 
